@@ -222,6 +222,76 @@ static void cmd_B(char** t) {
     printf(" minmatchmin=%d blockmaxmin=%d blockmax=%d err=%lu\n", ZSTD_MINMATCH_MIN, ZSTD_BLOCKSIZE_MAX_MIN, ZSTD_BLOCKSIZE_MAX, (unsigned long)ZSTD_SEQUENCE_PRODUCER_ERROR);
 }
 
+/* A <id> <params> <dictmode> <dicthex|-> <srcSize>  -> <id> OK <applied>    (parameters as ZSTD_compressSequences will apply them) */
+static void cmd_A(char** t) {
+    const char* id = t[1]; size_t dn; unsigned char* d = unhex(t[4], &dn); size_t n = (size_t)strtoull(t[5], NULL, 10);
+    ZSTD_CCtx* c = ZSTD_createCCtx(); size_t r = apply_cparams(c, t[2]); size_t ds = 0;
+    if (!ZSTD_isError(r)) r = give_dict(c, t[3], d, dn);
+    if (!ZSTD_isError(r)) r = ZSTD_CCtx_init_compressStream2(c, ZSTD_e_end, n);
+    if (!ZSTD_isError(r)) ds = c->cdict ? c->cdict->dictContentSize : (c->prefixDict.dict ? c->prefixDict.dictSize : 0);
+    if (ZSTD_isError(r)) { printf("%s ERR ", id); pename(r); putchar('\n'); }
+    else { printf("%s OK ", id); print_applied(c, ds); putchar('\n'); }
+    ZSTD_freeCCtx(c); if (g_cdict) { ZSTD_freeCDict(g_cdict); g_cdict = NULL; }
+    free(d);
+}
+
+#ifndef C17_NO_UNITS
+/* unit-level commands: direct calls of the static functions the property is anchored in
+ *  U <id> v <wlog> <minMatch> <producer> <dictSize> <offBase> <ml> <posInSrc>   -> <id> 0|1   (1 = ZSTD_validateSequence accepts)
+ *  U <id> f <raw> <r0.r1.r2> <ll0>                                             -> <id> <offBase> <r0.r1.r2 after ZSTD_updateRep>
+ *  U <id> b <srcSize>                                                          -> <id> <ZSTD_sequenceBound>
+ *  U <id> p <nb> <capacity> <srcSize> <seqs|->                                 -> <id> OK <seqs> | <id> FAIL   (ZSTD_postProcessSequenceProducerResult)
+ *  U <id> k <r0.r1.r2> <lastLL> <ll.ml.ob;...|->                               -> <id> OK off:ll:ml:rep,...      (ZSTD_copyBlockSequences)
+ */
+static void cmd_U(char** t, int nt) {
+    const char* id = t[1];
+    if (t[2][0] == 'v' && nt >= 10) {
+        size_t r = ZSTD_validateSequence((U32)strtoul(t[7], NULL, 10), (U32)strtoul(t[8], NULL, 10), (U32)strtoul(t[4], NULL, 10),
+                                         (size_t)strtoull(t[9], NULL, 10), (U32)strtoul(t[3], NULL, 10), (size_t)strtoull(t[6], NULL, 10), atoi(t[5]));
+        printf("%s %d\n", id, ZSTD_isError(r) ? 0 : 1);
+    } else if (t[2][0] == 'f' && nt >= 6) {
+        U32 rep[3]; unsigned a, b, c; U32 ob; U32 ll0 = (U32)atoi(t[5]);
+        sscanf(t[4], "%u.%u.%u", &a, &b, &c); rep[0] = a; rep[1] = b; rep[2] = c;
+        ob = ZSTD_finalizeOffBase((U32)strtoul(t[3], NULL, 10), rep, ll0);
+        ZSTD_updateRep(rep, ob, ll0);
+        printf("%s %u %u.%u.%u\n", id, ob, rep[0], rep[1], rep[2]);
+    } else if (t[2][0] == 'b' && nt >= 4) {
+        printf("%s %lu\n", id, (unsigned long)ZSTD_sequenceBound((size_t)strtoull(t[3], NULL, 10)));
+    } else if (t[2][0] == 'p' && nt >= 7) {
+        size_t nb = (size_t)strtoull(t[3], NULL, 10), cap = (size_t)strtoull(t[4], NULL, 10), n = (size_t)strtoull(t[5], NULL, 10);
+        ZSTD_Sequence* q; size_t nq = parse_seqs(t[6], &q, 0);
+        ZSTD_Sequence* buf = (ZSTD_Sequence*)calloc(cap ? cap : 1, sizeof(ZSTD_Sequence)); size_t r;
+        if (nq > cap) nq = cap;
+        if (nq) memcpy(buf, q, nq * sizeof(ZSTD_Sequence));
+        r = ZSTD_postProcessSequenceProducerResult(buf, nb, cap, n);
+        if (ZSTD_isError(r)) printf("%s FAIL\n", id); else { printf("%s OK ", id); print_seqs(buf, r, 0); putchar('\n'); }
+        free(q); free(buf);
+    } else if (t[2][0] == 'k' && nt >= 6) {
+        U32 rep[3]; unsigned a, b, c; size_t lastLL = (size_t)strtoull(t[4], NULL, 10); size_t n = 0, cap = 16, i, lits = 0;
+        seqDef* sd = (seqDef*)calloc(cap, sizeof(seqDef)); seqStore_t ss; SeqCollector sc; ZSTD_Sequence* out; size_t r; const char* p = t[5];
+        memset(&ss, 0, sizeof(ss)); ss.longLengthType = ZSTD_llt_none;
+        sscanf(t[3], "%u.%u.%u", &a, &b, &c); rep[0] = a; rep[1] = b; rep[2] = c;
+        if (strcmp(p, "-")) while (*p) {
+            unsigned long l, m, o; char* e;
+            l = strtoul(p, &e, 10); if (*e != '.') break; p = e + 1;
+            m = strtoul(p, &e, 10); if (*e != '.') break; p = e + 1;
+            o = strtoul(p, &e, 10); p = e;
+            if (n == cap) { cap *= 2; sd = (seqDef*)realloc(sd, cap * sizeof(seqDef)); }
+            if (l > 0xFFFF) { ss.longLengthType = ZSTD_llt_literalLength; ss.longLengthPos = (U32)n; }
+            if (m - MINMATCH > 0xFFFF) { ss.longLengthType = ZSTD_llt_matchLength; ss.longLengthPos = (U32)n; }
+            sd[n].litLength = (U16)l; sd[n].mlBase = (U16)(m - MINMATCH); sd[n].offBase = (U32)o; lits += l; n++;
+            if (*p == ';') p++; else break;
+        }
+        ss.sequencesStart = sd; ss.sequences = sd + n; ss.litStart = (BYTE*)sd; ss.lit = (BYTE*)sd + lits + lastLL;   /* only the difference is used */
+        out = (ZSTD_Sequence*)calloc(n + 1, sizeof(ZSTD_Sequence));
+        sc.collectSequences = 1; sc.seqStart = out; sc.seqIndex = 0; sc.maxSequences = n + 1;
+        r = ZSTD_copyBlockSequences(&sc, &ss, rep);
+        if (ZSTD_isError(r)) printf("%s FAIL\n", id); else { printf("%s OK ", id); print_seqs(out, sc.seqIndex, 1); putchar('\n'); }
+        (void)i; free(sd); free(out);
+    } else printf("%s BADCMD\n", id);
+}
+#endif
+
 int main(void) {
     char* line = NULL; size_t lcap = 0; ssize_t len;
     while ((len = getline(&line, &lcap, stdin)) > 0) {
@@ -233,6 +303,10 @@ int main(void) {
         else if (t[0][0] == 'M' && nt >= 3) cmd_M(t);
         else if (t[0][0] == 'P' && nt >= 6) cmd_P(t);
         else if (t[0][0] == 'B' && nt >= 2) cmd_B(t);
+        else if (t[0][0] == 'A' && nt >= 6) cmd_A(t);
+#ifndef C17_NO_UNITS
+        else if (t[0][0] == 'U' && nt >= 4) cmd_U(t, nt);
+#endif
         else printf("%s BADCMD\n", nt > 1 ? t[1] : "?");
         fflush(stdout);
     }
